@@ -312,6 +312,24 @@ def run_case(case):
                 out.append(("C02:frame-follows-callers-address-object:" + case["fam"],
                             "%s: frame %#x after the caller renumbered its address object, %#x when built from a fresh one"
                             % (where, lf.as_integer, twin.as_integer)))
+        if "dest" in case and case["dest"][0] == "int" and case.get("sibling") is not None:
+            # the destination object a command hands out belongs to that command: renumbering it (the lamp was
+            # re-addressed) does not touch commands built later for the same integer
+            first = construct(case)
+            want = (len(first.frame), first.frame.as_integer)
+            try:
+                first.destination.address = (case["dest"][1] + 1) % 64
+            except Exception:  # noqa - read-only would be fine
+                pass
+            later = construct(case)
+            if (len(later.frame), later.frame.as_integer) != want:
+                out.append(("C02:integer-destination-shared-between-commands:" + case["fam"],
+                            "%s: after the .destination of an earlier command for the same integer was renumbered, a new "
+                            "command gets frame %#x instead of %#x" % (where, later.frame.as_integer, want[1])))
+            try:
+                first.destination.address = case["dest"][1]
+            except Exception:  # noqa
+                pass
         f = obj.frame
         if case.get("sibling"):
             # a second object of the same class is built while this one is still in use: each keeps its own frame
@@ -557,8 +575,12 @@ def event_cases(base, name, cls, quick, seed):
                 (range(1024) if scheme != "device_instance" else pick(range(1024), 64, seed, (0, 1023)))
             for d in datas:
                 yield dict(base, kw=dict(kw, data=d), **extra)
-        else:   # push-button events: no data
+        else:   # push-button events: the event information is fixed by the class
             yield dict(base, kw=dict(kw), **extra)
+            # ... the shared 'data' keyword is accepted and has no say (whatever value is passed)
+            for d in (0, 1, 2, 5, 9, 11, 1023):
+                if (d + kw.get("short_address", 0) if isinstance(kw.get("short_address", 0), int) else d) % 3 == 0 or d in (0, 1):
+                    yield dict(base, kw=dict(kw, data=d), pb_data=True, **extra)
             if scheme == "device":
                 yield dict(base, kw=dict(kw, short_address=["dshort", kw["short_address"]]), **extra)
 
